@@ -162,13 +162,32 @@ func (e *treeEngine) Generate(prop string, r *simrt.RNG, tier string, run int) *
 	for _, i := range r.Perm(len(rest)) {
 		order = append(order, rest[i])
 	}
-	for _, id := range order {
+	// a clean stop and restart on the same databases somewhere in the history:
+	// what was only in memory (orphans, the index of side branches) is gone, so
+	// every block is delivered again afterwards
+	restarts := 0
+	if r.Chance(1, 3) {
+		restarts = r.Range(1, 2)
+	}
+	restartAt := map[int]bool{}
+	for i := 0; i < restarts; i++ {
+		restartAt[r.Range(len(order)/2, len(order)-1)] = true
+	}
+	for oi, id := range order {
+		if restartAt[oi] {
+			sc.Ops = append(sc.Ops, simrt.Op{K: "restart"})
+		}
 		sc.Ops = append(sc.Ops, simrt.Op{K: "dlv", I: []int64{int64(id), int64(r.Intn(3)), int64(r.Intn(3))}})
 		if r.Chance(1, 6) { // duplicate delivery, possibly later
 			sc.Ops = append(sc.Ops, simrt.Op{K: "dlv", I: []int64{int64(ids[r.Intn(len(ids))]), int64(r.Intn(2)), int64(r.Intn(3))}})
 		}
 		if r.Chance(1, 8) {
 			sc.Ops = append(sc.Ops, simrt.Op{K: "sleep", I: []int64{int64(r.Range(1, 20000))}})
+		}
+	}
+	if restarts > 0 {
+		for _, i := range r.Perm(len(ids)) {
+			sc.Ops = append(sc.Ops, simrt.Op{K: "dlv", I: []int64{int64(ids[i]), int64(r.Intn(2)), int64(r.Intn(3))}})
 		}
 	}
 	return sc
@@ -200,11 +219,12 @@ func (e *treeEngine) run(ctx *simrt.Ctx) *simrt.Violation {
 	defer w.Fac.Close()
 	defer w.Fac.Disk.Remove()
 	sut := simnode.New(simnode.Opts{ID: "sut-" + uid, StubMempool: true, EditToml: seqToml(recseq)})
-	defer sut.Close()
+	defer func() { sut.Close() }()
 	defer sut.Disk.Remove()
 	simrt.Settle()
 	time.Sleep(2 * time.Second) // past the start-up download-mode decision
 	t0 := time.Now()
+	nrestart := 0
 
 	delivered := map[int]bool{}
 	var maxH int64
@@ -220,6 +240,43 @@ func (e *treeEngine) run(ctx *simrt.Ctx) *simrt.Violation {
 			}
 		case "sleep":
 			time.Sleep(time.Duration(op.Int(0)) * time.Millisecond)
+		case "restart":
+			tipBefore := lastHash(sut)
+			time.Sleep(time.Second)
+			simrt.Settle()
+			disk := sut.Disk
+			sut.Close()
+			simrt.Settle()
+			nrestart++
+			sut = simnode.New(simnode.Opts{ID: fmt.Sprintf("sut-%s-r%d", uid, nrestart), Disk: disk, StubMempool: true, EditToml: seqToml(recseq)})
+			simrt.Settle()
+			time.Sleep(2 * time.Second)
+			simrt.Settle()
+			ctx.Fault("restart")
+			// what was delivered before is only known to the node as far as it is on disk
+			delivered = map[int]bool{}
+			for _, b := range w.Blocks {
+				if b != nil && string(b.Hash) == string(tipBefore) {
+					for x := b; x != nil; x = x.Up {
+						delivered[x.ID] = true
+					}
+				}
+			}
+			if string(lastHash(sut)) != string(tipBefore) {
+				return ctx.Violate("restart-wrong-chain", "clean-restart/tip-changed", "a clean stop and restart moved the best chain tip from %x to %x (height %d)", tipBefore, lastHash(sut), sut.Chain.GetBlockHeight())
+			}
+			if v := ChainInvariant(sut); v != nil {
+				v.OpIndex = i
+				v.Sig = "after-clean-restart/" + v.Sig
+				return v
+			}
+			if recseq {
+				if v := checkSequenceLog(sut); v != nil {
+					v.OpIndex = i
+					v.Sig = "after-clean-restart/" + v.Sig
+					return v
+				}
+			}
 		case "dlv":
 			b := w.Blocks[int(op.Int(0))]
 			if b == nil {
